@@ -147,7 +147,11 @@ class Ref(
     # Always create a new object.
     # TODO(daiyip): support deep clone with the update of reference when
     # the original value is updated.
-    return Ref(self._value, allow_partial=self.allow_partial)
+    # The copy carries the flags of this reference object (the referenced value
+    # is shared by design).
+    other = Ref(self._value, allow_partial=self.allow_partial)
+    other.set_accessor_writable(self.accessor_writable)
+    return other.seal(self.is_sealed)
 
   def sym_eq(self, other: Any) -> bool:
     return isinstance(other, Ref) and self.value is other.value
